@@ -56,6 +56,7 @@ func c14CkiVal(c *key.CustomKeyInformation) Val {
 
 func c14Guid(b []byte) guid.GUID {
 	var g guid.GUID
+	dirty(&g)
 	g.FromRawBytes(exact(b))
 	return g
 }
